@@ -667,6 +667,70 @@ func (a *analysis) checkRecovery(x *verifkit.Exec) {
 			a.bad("C10/transient-failure-not-recovered/"+p.Engine, "a transient failure (event #%d) ended the run, nobody stopped the pipeline, but it ended %s without any recovery attempt or degraded status (status history %v)", transientSeq, final, statusNames(sts2names(sts)))
 		}
 	}
+	// R8: a pipeline that a user stopped (or that the shutting-down server stopped) is never restarted by recovery, also
+	// when the failure arrives DURING the graceful stop: the request was made on a live, healthy run (no failure of any
+	// kind before it) and was accepted (the stop call itself did not fail; a StopAndWait that reports the failed drain
+	// was accepted), nobody started the pipeline afterwards.
+	if forceless(a.evs) && len(p.Apply) == 0 && len(p.Reconf) == 0 && !x.StepCapHit {
+		firstFailure := -1
+		fatalSeen := fatalInjected != ""
+		for _, e := range a.evs {
+			if (e.Kind == "readerr" || e.Kind == "runerr" || e.Kind == "openfail") && e.Arg == "fatal" {
+				fatalSeen = true // a plugin error marked fatal: Degraded is the matching end
+			}
+		}
+		for _, e := range a.evs {
+			if e.Kind == "openfail" || e.Kind == "runerr" || e.Kind == "readerr" || (e.Comp == "proc" && e.Kind == "error") || (e.Comp == "dlq" && e.Kind == "nack") || e.Kind == "commitfail" || e.Kind == "putfail" || e.Kind == "txfail" {
+				firstFailure = e.Seq
+				break
+			}
+		}
+		live, status := 0, ""
+		for i, e := range a.evs {
+			switch {
+			case e.Comp == "db" && e.Kind == "put" && strings.HasPrefix(e.Arg, "pipeline:instance:"):
+				if parts := strings.SplitN(e.Arg, "|", 2); len(parts) == 2 {
+					_, status, _ = stack.ParseDescribe(parts[1])
+				}
+			case isSource(e.Comp) && e.Kind == "open":
+				live++
+			case isSource(e.Comp) && e.Kind == "teardown":
+				live--
+			}
+			if e.Comp != "ctl" || e.Kind != "call" || (e.Arg != "stop" && e.Arg != "stopwait" && e.Arg != "stopall") {
+				continue
+			}
+			if live <= 0 || status != "Running" || (firstFailure >= 0 && firstFailure < e.Seq) || lastUserStart > e.Seq {
+				continue
+			}
+			// was it accepted?
+			accepted := e.Arg == "stopall"
+			for _, r := range a.evs[i+1:] {
+				if r.Comp == "ctl" && (r.Kind == e.Arg+".ret" || r.Kind == "hist."+e.Arg+".ret") {
+					res := strings.SplitN(r.Arg, "|status=", 2)[0]
+					accepted = res == "nil" || strings.Contains(res, "did not stop gracefully")
+					break
+				}
+			}
+			if !accepted {
+				continue
+			}
+			who, want := "the user stopped the pipeline", "UserStopped"
+			if e.Arg == "stopall" {
+				who, want = "the server shut down gracefully (StopAll)", "SystemStopped"
+			}
+			for _, o := range opens {
+				if o.Seq > e.Seq {
+					a.bad("C10/restarted-after-stop-request/"+p.Engine, "%s (event #%d, on a live run that had not failed) but recovery restarted it afterwards (source %s opened at event #%d; status history %v)", who, e.Seq, o.Comp, o.Seq, statusNames(sts2names(sts)))
+					break
+				}
+			}
+			if final != "" && final != want && !(final == "Degraded" && fatalSeen) {
+				a.bad("C10/stop-request-status/"+p.Engine, "%s (event #%d, on a live run that had not failed) but it ended %s, not %s (status history %v)", who, e.Seq, final, want, statusNames(sts2names(sts)))
+			}
+			break
+		}
+	}
 	// user stop / shutdown end in the matching stopped status
 	if userStopOK && userStopSeq >= 0 && a.healthy && final != "UserStopped" && final != "" {
 		a.bad("C10/user-stop-status", "the user stopped the pipeline (event #%d) but it ended %s", userStopSeq, final)
@@ -674,6 +738,27 @@ func (a *analysis) checkRecovery(x *verifkit.Exec) {
 	if shutdownSeq >= 0 && a.healthy && final != "SystemStopped" && final != "" && !x.StepCapHit {
 		a.bad("C10/shutdown-status", "the server shut down gracefully (StopAll at event #%d) but the pipeline ended %s, not SystemStopped", shutdownSeq, final)
 	}
+}
+
+// restartedBefore reports whether a source connector was opened between the two events (a restart reads the stored
+// configuration anew).
+func restartedBefore(evs []verifkit.Event, from, to int) bool {
+	for _, e := range evs {
+		if e.Seq > from && e.Seq < to && isSource(e.Comp) && e.Kind == "open" {
+			return true
+		}
+	}
+	return false
+}
+
+// statusWriteAfter reports whether the pipeline's status was written (or a write of it was refused) after event seq.
+func statusWriteAfter(evs []verifkit.Event, seq int) bool {
+	for _, e := range evs {
+		if e.Seq > seq && e.Comp == "db" && (e.Kind == "put" || e.Kind == "putfail") && strings.HasPrefix(e.Arg, "pipeline:instance:") {
+			return true
+		}
+	}
+	return false
 }
 
 func forceless(evs []verifkit.Event) bool {
@@ -698,11 +783,23 @@ func (a *analysis) checkControl(x *verifkit.Exec) {
 	startInFlight, startInFlightStatus := 0, ""
 	failedBuildSeen := false
 	lastStatusWriteFailed := false
+	lastTeardownSeq, lastStatusAttemptSeq := -1, -1
+	callSeq := map[int]int{}
 	for _, e := range a.evs {
+		if (isSource(e.Comp) || isDest(e.Comp) || e.Comp == "dlq") && e.Kind == "teardown" {
+			lastTeardownSeq = e.Seq
+		}
+		if e.Comp == "db" && (e.Kind == "put" || e.Kind == "putfail") && strings.HasPrefix(e.Arg, "pipeline:instance:") {
+			lastStatusAttemptSeq = e.Seq
+		}
 		switch {
 		case (isSource(e.Comp) || isDest(e.Comp) || e.Comp == "dlq") && e.Kind == "open":
 			open[e.Comp]++
-			if open[e.Comp] > 1 {
+			limit := 1
+			if e.Comp == "dlq" && a.p.Engine == "v2" && a.p.Sources > 1 {
+				limit = a.p.Sources // the funnel engine opens one DLQ connector per source (they share the scripted plugin)
+			}
+			if open[e.Comp] > limit {
 				key := "C11/two-runs-at-once"
 				if startInFlight > 0 && startInFlightStatus == "Recovering" {
 					// a Start issued by the user while the pipeline waits for its recovery restart runs concurrently with that restart
@@ -737,6 +834,7 @@ func (a *analysis) checkControl(x *verifkit.Exec) {
 					}
 				}
 				callLive[n], callStatus[n] = live, status
+				callSeq[n] = e.Seq
 				if strings.HasPrefix(e.Arg, "start#") {
 					startInFlight, startInFlightStatus = n, status
 				}
@@ -775,6 +873,13 @@ func (a *analysis) checkControl(x *verifkit.Exec) {
 					a.bad("C11/wait-returned-for-another-run", "WaitPipeline returned nil while the pipeline is Running with open connectors (event #%d): it waited for an earlier run", e.Seq)
 				}
 			case "start":
+				if res[0] != "nil" && strings.Contains(res[0], "running") && !liveRun && !liveAtCall && memStatus == "Running" &&
+					lastTeardownSeq >= 0 && !x.StepCapHit && len(x.W.Pending()) == 0 && !statusWriteAfter(a.evs, callSeq[e.Idx]) {
+					// the previous run (or start attempt) has ended: its connectors are closed and no status write of its
+					// cleanup was still on its way when Start was called (none arrives later): the pipeline is not running,
+					// whatever the status says
+					a.bad("C11/start-refused-although-nothing-runs", "Start was refused (%s) and the pipeline is reported Running although the last run has ended (connectors closed at event #%d, last status write attempt at event #%d) and nothing runs (event #%d)", res[0], lastTeardownSeq, lastStatusAttemptSeq, e.Seq)
+				}
 				if res[0] != "nil" && !liveRun && memStatus != "Running" && memStatus != "Recovering" && a.healthy && !strings.Contains(res[0], "verif:") &&
 					!liveAtCall && statusAtCall != "Running" && statusAtCall != "Recovering" {
 					key := "C11/start-refused-after-run-ended"
@@ -950,6 +1055,43 @@ func (a *analysis) checkReconf(x *verifkit.Exec) {
 		}
 	}
 	_ = failedOnly
+	// The caller gets the true result: a reconfigure request that returned an ERROR without having been cancelled by its
+	// caller has not been applied - no record may be processed by its configuration afterwards (unless a later request
+	// for it succeeded). A request cancelled by the caller may legitimately still complete (documented: the swap is not
+	// withdrawn once the node claimed it). Judged only when the history holds ONE request: the lifecycle call carries no
+	// configuration (it applies whatever is stored at that moment), so with two overlapping requests the one that
+	// succeeds legitimately applies what the other one stored.
+	singleRequest := 0
+	for _, r := range a.p.Reconf {
+		if r == "A" || r == "B" {
+			singleRequest++
+		}
+	}
+	for _, req := range []struct {
+		name string
+		gen  int
+	}{{"A", 1}, {"B", 2}} {
+		retSeq, okLater, cancelled := -1, false, false
+		for _, e := range a.evs {
+			switch {
+			case e.Comp == "ctl" && e.Kind == "call" && strings.HasPrefix(e.Arg, "cancel"+req.name):
+				if retSeq < 0 {
+					cancelled = true
+				}
+			case e.Comp == "ctl" && e.Kind == "reconf"+req.name+".ret":
+				if e.Arg == "nil" {
+					okLater = true
+				} else if retSeq < 0 {
+					retSeq = e.Seq
+				}
+			case strings.HasPrefix(e.Comp, "proc:") && e.Kind == "in" && retSeq >= 0 && !okLater && !cancelled && len(a.p.Apply) == 0 && singleRequest == 1:
+				if genNum(e.Arg) == req.gen && !restartedBefore(a.evs, retSeq, e.Seq) {
+					a.bad("C13/failed-reconfigure-took-effect", "the reconfigure request %s returned an error (event #%d) and was not cancelled by its caller, but record %d was then processed by its configuration g%d (event #%d): the caller was told the old configuration keeps running", req.name, retSeq, e.Idx, req.gen, e.Seq)
+					retSeq = -2
+				}
+			}
+		}
+	}
 	for k, gens := range processedBy {
 		if len(gens) > 1 && !restarted(a.evs) {
 			a.bad("C13/record-processed-twice", "record %d of %s was processed %d times (by configurations %v) within one run", k.idx, k.src, len(gens), gens)
